@@ -276,10 +276,29 @@ class CorpusHarness(Harness):
                 uncompressed_size_in_bytes=len(content) if cfg["declare_uncompressed"] else None,
                 target_index="idx",
             )
+            # the directories DefaultTrackPreparator.prepare_docs resolves: next to the track (only with --track-path, "bundled") and the
+            # corpus directory below the data set cache
             root0 = os.path.join(run_dir, "trackdir")
-            root1 = os.path.join(run_dir, "cache")
+            root1 = os.path.join(run_dir, "cache", "c")
             os.makedirs(root0)
             os.makedirs(root1)
+            from esrally import config as rally_config
+
+            rally_cfg = rally_config.Config()
+            rally_cfg.add(rally_config.Scope.application, "benchmarks", "local.dataset.cache", os.path.join(run_dir, "cache"))
+            if cfg["bundled"]:
+                with open(os.path.join(run_dir, "track.json"), "w") as f:
+                    f.write("{}")
+                os.rename(os.path.join(run_dir, "track.json"), os.path.join(root0, "track.json"))
+                rally_cfg.add(rally_config.Scope.application, "track", "track.path", root0)
+
+            class _Corpus:
+                name = "c"
+                documents = [ds]
+
+            class _Track:
+                name = "trackdir"
+                corpora = [_Corpus]
             place = root0 if cfg["bundled"] else root1
             doc_path = os.path.join(place, doc_name)
             arch_path = os.path.join(place, arch_name) if arch_name else None
@@ -385,15 +404,9 @@ class CorpusHarness(Harness):
                     before = {p: os.path.getsize(os.path.join(place, p)) for p in os.listdir(place)}
                     prep = loader.DocumentSetPreparator("simtrack", loader.Downloader(cfg["offline"], cfg["test_mode"]), loader.Decompressor())
                     try:
-                        if cfg["bundled"]:
-                            if not prep.prepare_bundled_document_set(ds, root0):
-                                prep.prepare_document_set(ds, root1)
-                                final_root = root1
-                            else:
-                                final_root = root0
-                        else:
-                            prep.prepare_document_set(ds, root1)
-                            final_root = root1
+                        loader.DefaultTrackPreparator.prepare_docs(rally_cfg, _Track, _Corpus, prep)
+                        # the load generators read the first existing file over the resolved directories (set_absolute_data_path)
+                        final_root = next((r for r in loader.data_dir(rally_cfg, _Track.name, _Corpus.name) if os.path.exists(os.path.join(r, doc_name))), root1)
                         results.append(("returned", final_root))
                     except Crash:
                         results.append(("killed", None))
